@@ -178,10 +178,12 @@ Definition apply_search (b : sbuf) (st : sstate) (icp : bool) (count : Z) : sbuf
   | SFound w c => set_cursor_position (set_working_index b w) c
   end.
 
+(* a match in another working line has no position in the current text: the
+   current cursor is answered (fix commit 51c160f) *)
 Definition get_search_position (b : sbuf) (st : sstate) (icp : bool) (count : Z) : Z :=
   match search b st icp count with
   | SNone => cur b
-  | SFound _ c => c
+  | SFound w c => if w =? wi b then c else cur b
   end.
 
 (* the (text, cursor) of the Document returned (the selection is outside) *)
